@@ -1,6 +1,8 @@
 """C05 - volatility, range, channel and utility indicators match their definitions."""
 from __future__ import annotations
 
+import math
+
 from hypothesis import strategies as st
 
 from hxv.gen import configs as gc
@@ -40,7 +42,10 @@ def cases(draw, cls, max_n=120):
     n = draw(st.one_of(st.integers(0, w + 3), st.integers(w, max_n)))
     if draw(st.integers(0, 3)) == 0:
         return _scheduled(draw, cfg, n)
-    return {"cfg": cfg, "stream": draw(gs.streams(n, n, with_ts=False))}
+    case = {"cfg": cfg, "stream": draw(gs.streams(n, n, with_ts=False))}
+    if cls in nm.RETUNE_OK and draw(st.integers(0, 3)) == 0:
+        case["retune_from"] = draw(st.integers(2, 20))  # first built and calculated with this period, then re-tuned
+    return case
 
 
 @st.composite
@@ -63,6 +68,28 @@ def micro_price_cases(draw, cls):
         kw.pop("period")
     rows = draw(gs.price_rows(n, grid=(0.000001, 6), base=draw(st.sampled_from((40, 400, 4000))), zero_volume_runs=False))
     return {"cfg": {"cls": cls, "kw": kw}, "stream": [[None] + r for r in rows]}
+
+
+@st.composite
+def threshold_micro_cases(draw):
+    """a 5-decimal quote that sits still and then ticks: the window sigma is below half a unit of the 4th decimal
+    (it is stored as 0.0) while the tick is clearly more than multiplier * (0.0 + rounding error) - a decidable True"""
+    p = draw(st.integers(3, 40))
+    mult = draw(st.sampled_from((0.5, 1.0, 1.0, 2.0)))
+    # one tick of k units (1e-5) in an otherwise still window of p: sigma = k*sqrt(q(1-q)), q = 1/p
+    hi = int(5.0 / math.sqrt((1.0 / p) * (1 - 1.0 / p))) - 1
+    lo = int(5.2 * mult) + 1
+    px = draw(st.sampled_from((108537, 5001, 99999, 1234567)))
+    rows, n = [], draw(st.integers(p + 2, min(150, 4 * p + 20)))
+    while len(rows) < n:
+        still = draw(st.one_of(st.integers(p, p + 6), st.integers(p, p + 6), st.integers(1, p)))
+        for _ in range(still):
+            c = round(px * 1e-5, 5)
+            rows.append([None, c, c, c, c, draw(st.integers(0, 9))])
+        k = draw(st.integers(lo, hi)) if lo <= hi and draw(st.integers(0, 4)) else draw(st.sampled_from((1, 3, 12, 30, 60)))
+        px += k * draw(st.sampled_from((-1, 1)))
+    rows = rows[:n]
+    return {"cfg": {"cls": "StandardDeviationThreshold", "kw": {"period": p, "multiplier": mult}}, "stream": rows}
 
 
 def _fields(ind, names):
@@ -202,6 +229,9 @@ def run_case(case) -> Result:
             stats["points_compared"] = stats.get("points_compared", 0) + 1
         if any(w_ is True for w_ in ref):
             labels.append("flag_true_once")
+        sg = ri.stdev(x, p, 4)
+        if any(w_ is True and sg[i] is not None and not ri._bad(sg[i]) and abs(sg[i].v) < 0.00005 for i, w_ in enumerate(ref)):
+            labels.append("flag_true_while_sigma_stored_as_zero")
     elif cls == "Counter":
         src = kw["input_value"]
         if src == "X":
@@ -216,6 +246,12 @@ def run_case(case) -> Result:
         vv.subject = cls
     w = gc.warmup(cfg)
     regimes_after = any(flat[w:]) or len(rows) > w + 5
+    if not viol and case.get("retune_from") and not case.get("tf") and cls in nm.RETUNE_OK and "period" in kw:
+        labels.append("retuned")
+        vv = nm.retune_violation(cfg, rows, prep, case["retune_from"], ind)
+        if vv:
+            vv.subject = cls
+            viol.append(vv)
     return Result(viol, len(rows) >= w + 5 and regimes_after, labels, stats)
 
 
@@ -226,6 +262,7 @@ def shards(tier):
         cost = 3 if c in ("Supertrend", "KC", "BBANDS") else 1
         out.append(Shard(c, (lambda c=c: cases(c)), n, subject=c, cost=cost))
     out.append(Shard("Supertrend-ties", lambda: supertrend_tie_cases(), n, subject="Supertrend", cost=2))
+    out.append(Shard("StandardDeviationThreshold-microticks", lambda: threshold_micro_cases(), n // 2, subject="StandardDeviationThreshold"))
     for c in ("Donchian", "HighestLowest", "HighLowAverage", "TR"):
         out.append(Shard(c + "-micro", (lambda c=c: micro_price_cases(c)), n // 2, subject=c))
     return out
